@@ -1,13 +1,14 @@
 ------------------------------ MODULE MCUrlGen ------------------------------
 EXTENDS UrlGen
 Colon == <<":", "&colon;", "&#58;", "&#x3a;", "&#x3A;", "\\:", "%3A", "&#58", "&#0058;">>
+ImgTail == <<"", "image/png;", "image/webp;x,">>      \* what the data: whitelist looks for, after another scheme
 MCLeads == <<"", " ", "\t", "&#x1;", "&Tab;", "&NewLine;", "{u+00a0}", "{u+feff}", "&#32;", "%20", "&#9;", "\\ ">>
 MCLeadsQ == <<"", " ", "&#x1;", "&Tab;", "&NewLine;", "{u+00a0}", "&#32;">>
 MCSchemes == <<
   << <<"java", "JAVA", "JaVa", "&#106;ava", "&#x6A;ava", "j&#97;va", "\\java", "j\\ava">>,
-     <<"script", "SCRIPT", "sCrIpT", "scr&Tab;ipt", "scr&NewLine;ipt", "scr&#10;ipt", "scr&#x9;ipt", "&#115;cript">>, Colon >>,
-  << <<"vb", "VB", "&#118;b">>, <<"script", "SCRIPT", "scr&Tab;ipt", "&#x73;cript">>, Colon >>,
-  << <<"file", "FILE", "fIlE", "&#102;ile", "fi&#x6c;e", "f\\ile">>, Colon, <<"///", "//x/", "">> >>,
+     <<"script", "SCRIPT", "sCrIpT", "scr&Tab;ipt", "scr&NewLine;ipt", "scr&#10;ipt", "scr&#x9;ipt", "&#115;cript">>, Colon, ImgTail >>,
+  << <<"vb", "VB", "&#118;b">>, <<"script", "SCRIPT", "scr&Tab;ipt", "&#x73;cript">>, Colon, ImgTail >>,
+  << <<"file", "FILE", "fIlE", "&#102;ile", "fi&#x6c;e", "f\\ile">>, Colon, <<"///", "//x/", "", "image/gif;/../x", "image/png;">> >>,
   << <<"data", "DATA", "dAtA", "&#100;ata", "d&#x61;ta">>, Colon,
      <<"text/html;", "text/html,", "image/svg+xml;", "image/png;", "IMAGE/PNG;", "image/gif;", "image/jpeg;",
        "image/webp;", "image/png", "text/html;image/png;", "image/png&semi;", "image/x-png;", ";", "",
